@@ -220,7 +220,7 @@ func c12Uncovered(ts []osTemplate) []string {
 	return missing
 }
 
-var c12Contexts = []string{"top", "spawn", "go-chan", "clone-call", "module-body", "module-func", "callback", "defer", "vm-reuse", "vm-reuse-spawn", "vm-reuse-call", "nested-eval"}
+var c12Contexts = []string{"top", "spawn", "go-chan", "clone-call", "module-body", "module-func", "callback", "defer", "vm-reuse", "vm-reuse-spawn", "vm-reuse-call", "vm-reuse-os-kept", "nested-eval"}
 var c12Routes = []string{"WithOS", "ctx", "ctx-layered"}
 var c12Faults = []string{"none", "fail-first", "fail-all", "relative-cwd"}
 
@@ -289,7 +289,7 @@ func c12Source(t osTemplate, context string) (main string, modules map[string]st
 		return "import pm\npm.body_result\n", map[string]string{"pm.risor": probe + "body_result := try(probe, " + handler + ")\n"}
 	case "module-func":
 		return "import pm\ntry(pm.probe, " + handler + ")\n", map[string]string{"pm.risor": probe}
-	case "vm-reuse", "nested-eval":
+	case "vm-reuse", "vm-reuse-os-kept", "nested-eval":
 		return probe + "try(probe, " + handler + ")\n", nil
 	case "vm-reuse-spawn":
 		return probe + "t := spawn(func() { return try(probe, " + handler + ") })\nt.wait()\n", nil
@@ -498,6 +498,13 @@ func runC12(rc *fw.RunCtx) {
 		wopts := append(append([]risor.Option{}, optsNoOS...), risor.WithVM(machine))
 		if round%2 == 0 {
 			wopts = append(wopts, risor.WithOS(decoy))
+		}
+		if ctxName == "vm-reuse-os-kept" && route == "WithOS" {
+			// the OS is supplied with the FIRST evaluation only; the VM keeps it,
+			// so the later evaluation (which does not repeat the option) must
+			// still be served by it
+			wopts = append(append([]risor.Option{}, optsNoOS...), risor.WithVM(machine), risor.WithOS(sos))
+			ropts = append(append([]risor.Option{}, optsNoOS...), risor.WithVM(machine))
 		}
 		s.Go("main", "main", func() {
 			guard(out, func() (object.Object, error) {
